@@ -70,7 +70,7 @@ def run_one(m, prop, repo):
         txt = r.stdout
         if 'fact extraction failed' in txt:
             return m, 'invalid', 'mutant does not compile'
-        keys = re.findall(r'^\s+violated (\S+)', txt, flags=re.M)
+        keys = re.findall(r'^\s+violated (.+?) at ', txt, flags=re.M)
         exp = m.get('expect')
         hit = [k for k in keys if exp and exp in k] if exp else keys
         if hit:
